@@ -1,6 +1,7 @@
 package propsros
 
 import (
+	"bufio"
 	"bytes"
 	"database/sql"
 	"encoding/binary"
@@ -263,7 +264,20 @@ func checkBag(c BagCase, st *stats.Collector) error {
 				perr = fmt.Sprint(x)
 			}
 		}()
-		err = ros.Bag2MCAP(&out, bytes.NewReader(bag), mc.Options(c.K))
+		// the bag arrives as a sized, seekable in-memory reader, as a stream that offers nothing but Read, or
+		// through a small bufio.Reader; the MCAP goes to a bytes.Buffer or to a Write-only destination
+		var src io.Reader = bytes.NewReader(bag)
+		switch len(bag) % 3 {
+		case 1:
+			src = struct{ io.Reader }{bytes.NewReader(bag)}
+		case 2:
+			src = bufio.NewReaderSize(bytes.NewReader(bag), 64)
+		}
+		var dst io.Writer = &out
+		if len(bag)%2 == 1 {
+			dst = struct{ io.Writer }{&out}
+		}
+		err = ros.Bag2MCAP(dst, src, mc.Options(c.K))
 	}()
 	if perr != "" {
 		return pk.Failf("panic", "Bag2MCAP panicked on a valid bag: %s", perr)
